@@ -64,6 +64,17 @@ def make_simulator(prog, name="sim"):
 
 
 _etype_counter = [0]
+_LABELLED = []
+
+
+def _labelled_event():
+    if not _LABELLED:
+        from pydsol.core.simevent import SimEvent
+
+        class LabelledEvent(SimEvent):
+            """model-defined SimEvent subclass"""
+        _LABELLED.append(LabelledEvent)
+    return _LABELLED[0]
 
 
 def _stat_event_types(kind):
@@ -235,8 +246,8 @@ class Harness:
                     elif k == "now":
                         ev = sim.schedule_event_now(model, "h", a[1], tag=a[2])
                     elif k == "ev":
-                        from pydsol.core.simevent import SimEvent
-                        ev = sim.schedule_event(SimEvent(time_value(self.prog, a[1]), model, "h", a[2], tag=a[3]))
+                        # a user-defined event class (public API: schedule_event takes any SimEventInterface)
+                        ev = sim.schedule_event(_labelled_event()(time_value(self.prog, a[1]), model, "h", a[2], tag=a[3]))
                     else:
                         v = BAD_VALUES[a[1]]
                         if a[1] == "past":
